@@ -49,13 +49,21 @@ def gen(rng, tier):
         elif q < 0.6:
             main.append({"op": "wait_all"})
     main.append({"op": "wait_all"})
+    polled = False
     for _ in range(rng.randint(0, 2)):
         m = rng.choice(["_exit", "exit", "signal", "return", "raise"])
         code = rng.randrange(256) if m in ("_exit", "exit") else rng.choice([9, 15, 11, 2 if False else 6])
         main.append({"op": "child_exit", "mode": m, "code": code, "probe_before": rng.random() < 0.5,
                      "context": rng.choice(["loky", "loky_init_main"])})
+        if rng.random() < 0.5:
+            main[-1]["pollers"] = rng.randint(1, 2)
+            polled = True
     main.append({"op": "shutdown", "ex": "A", "wait": True})
-    return dict(family="fresh", knobs=gen_knobs(rng, tier, line=False), model=gen_model(rng), threads=threads, faults=[],
+    kn = gen_knobs(rng, tier, line=False)
+    if polled:
+        # several threads polling one child: the window is between waitpid() and the assignment of its result
+        kn["hot"] = {"poll": rng.choice([0.3, 0.6])}
+    return dict(family="fresh", knobs=kn, model=gen_model(rng), threads=threads, faults=[],
                 ctx=ctx, init_mode=init_mode, envkw=env)
 
 
@@ -161,6 +169,11 @@ class C18(Prop):
                 o = e["o"]
                 kind, v = r["truth"]
                 want = v if kind == "exit" else -v
+                for n_, v_, alive_ in r.get("seen", []):
+                    if v_ != want:
+                        out.append(V(pid, "C18/exitcode-unfaithful/concurrent-poll", "child ended with %r, a polling thread read "
+                                     "Process.exitcode=%r" % (r["truth"], v_)))
+                        break
                 if r["exitcode"] != want:
                     out.append(V(pid, "C18/exitcode-unfaithful", "child ended with %r, Process.exitcode=%r" % (r["truth"], r["exitcode"])))
                 exp = {"_exit": ("exit", o["code"]), "exit": ("exit", o["code"]), "signal": ("sig", o["code"]),
